@@ -264,7 +264,8 @@ def run_panic_inventory(ctx, rid, entries, text, ctx_sensitive=False, kinds=None
                 ctx.ob(rid, s.key, True, "", ctx.where(f, s.line), sample={"site": s.key, "discharged": "reviewed as %s (the site moved): %s" % (k_old, r["why"])})
                 continue
         chain = cg.chain(parent, s.fn)
-        is_index_call = s.kind == "call" and s.detail.rsplit("::", 1)[-1] in ("index", "index_mut") and ("Index<" in s.detail or "IndexMut<" in s.detail)
+        is_index_call = s.kind == "call" and ((s.detail.rsplit("::", 1)[-1] in ("index", "index_mut") and ("Index<" in s.detail or "IndexMut<" in s.detail))
+                                            or (s.detail.rsplit("::", 1)[-1] in ("split_at", "split_at_mut", "copy_from_slice", "swap") and s.detail.startswith("core::slice::")))
         is_unwrap = s.kind == "call" and s.detail.rsplit("::", 1)[-1] in ("unwrap", "expect", "unwrap_unchecked") and s.detail.startswith(("core::option::Option", "core::result::Result"))
         if (declared_invariants_undecided is True and (is_index_call or is_unwrap)) or \
                 (declared_invariants_undecided is True and s.kind == "assert" and s.detail == "bounds") or (declared_invariants_undecided and s.kind == "call" and s.detail.startswith("core::panicking::")) \
